@@ -503,9 +503,50 @@ def g_level(ck: Check, rule: str) -> None:
                     for sx in fm.cfg.g.successors(ih.id):
                         if fm.cfg.nodes[sx].kind == "branch" and not fm.cfg.nodes[sx].pol:
                             cuts.add(sx)
+        # a node whose (already known) successors are all handed to the next level is not skipped either
+        for x in ast.walk(loop):
+            v_ = None
+            if isinstance(x, ast.Call) and isinstance(x.func, ast.Attribute) and x.func.attr in ("update", "extend") and x.args:
+                v_ = x.args[0]
+            elif isinstance(x, ast.AugAssign) and isinstance(x.op, (ast.BitOr, ast.Add)):
+                v_ = x.value
+            elif isinstance(x, ast.Assign) and isinstance(x.value, ast.BinOp) and isinstance(x.value.op, (ast.BitOr, ast.Add)) \
+                    and text(x.value.left) == text(x.targets[0]):
+                v_ = x.value.right
+            while isinstance(v_, ast.Call) and callee_name(v_) in ("set", "list", "sorted", "tuple") and len(v_.args) == 1:
+                v_ = v_.args[0]
+            if isinstance(v_, ast.Call) and callee_name(v_) == "node_successors" and v_.args and text(v_.args[0]) == cur:
+                try:
+                    pushes.add(fm.cfgn(x).id)
+                    cuts.add(fm.cfgn(x).id)
+                except AnalysisError:
+                    pass
         allowed = []
         if "EXPANDED" in reasons:
-            allowed.append(logic.B(f"T:FIELD<{sdp}|{cur}|expanded>"))
+            # "already expanded" excuses a node only if it was expanded *by this run* (it is in a set that receives a
+            # node exactly when this run goes on to expand it); a node expanded by an earlier call may have
+            # unexplored nodes below it
+            vis = []
+            for x in own_walk(f.node):
+                if isinstance(x, ast.Assign) and isinstance(x.targets[0], ast.Name) and (
+                        (isinstance(x.value, ast.Call) and callee_name(x.value) == "set" and not x.value.args)):
+                    V = x.targets[0].id
+                    adds = [c_ for c_ in ast.walk(loop) if isinstance(c_, ast.Call) and isinstance(c_.func, ast.Attribute)
+                            and text(c_.func.value) == V and c_.func.attr == "add" and c_.args and text(c_.args[0]) == cur]
+                    other = [c_ for c_ in own_walk(f.node) if isinstance(c_, ast.Call) and isinstance(c_.func, ast.Attribute)
+                             and text(c_.func.value) == V and c_.func.attr not in ("add", "copy", "__contains__")]
+                    rebinds = [y for y in own_walk(f.node) if isinstance(y, (ast.Assign, ast.AugAssign)) and y is not x
+                               and any(isinstance(t_, ast.Name) and t_.id == V for t_ in (y.targets if isinstance(y, ast.Assign) else [y.target]))]
+                    if not adds or other or rebinds:
+                        continue
+                    # every insertion is followed, within the iteration, by the expansion of the node or by handing on
+                    # its successors
+                    if all(hdr_.id not in _within(fm, loop, fm.cfgn(a_), cuts | {cn.id})
+                           for a_ in adds for hdr_ in [fm.cfg.loop_header[loop]]):
+                        vis.append(V)
+            exp_a = logic.B(f"T:FIELD<{sdp}|{cur}|expanded>")
+            if vis:
+                allowed.append(logic.And(exp_a, logic.Or(*[logic.B(f"in:{cur}|{V}") for V in vis])))
         if "DISJOINT" in reasons and tgt_p:
             allowed.append(logic.B(f"none:intersect({space_key}, {tgt_p})"))
         if "INSIDE" in reasons and tgt_p:
